@@ -272,6 +272,13 @@ class RecipeReplay:
         elif "cur" in ev and not ev.get("dead") and (recipe.current_stage != ev["cur"] or set(recipe.stages) - {"all"} != set(ev["stageNames"])):
             self.report("C16", "stage_bookkeeping", key,
                         f"{call_txt}: open stage {recipe.current_stage!r}, closed stages {sorted(set(recipe.stages) - {'all'})}; specified {ev['cur']!r}, {sorted(ev['stageNames'])}", ev)
+        elif "curStart" in ev and not ev.get("dead") and ev["cur"] != "all" and getattr(recipe, "current_stage_start", ev["curStart"]) != ev["curStart"]:
+            # the open stage begins where start_stage was ACCEPTED: a refused call in between must not move it.  The frame of
+            # a stage is what C09 ("exactly the steps of the timeframe") and C15 ("during the timeframe") are about, too
+            for prop in ("C16", "C09", "C15"):
+                self.ran(prop)
+                self.report(prop, "stage_bookkeeping" if prop == "C16" else "stage_frame", key,
+                            f"{call_txt}: the open stage {recipe.current_stage!r} starts at step {recipe.current_stage_start}, specified {ev['curStart']}", ev)
         if baked_before is not None:
             after = self.snapshot_answers(ctx)
             if after["results"] != baked_before["results"]:
